@@ -6,8 +6,12 @@ From VM Require Import Prelude.MachInt Prelude.Outcome Prelude.Tok.
 
 Inductive aop := OpCheckedAdd | OpCheckedSub | OpCheckedOffsetFrom | OpOverflowingAdd
   | OpOverflowingSub | OpCheckedAlignUp | OpMask | OpBitAnd | OpBitOr | OpCmp | OpEq
-  | OpUncheckedAdd | OpUncheckedSub | OpUncheckedOffsetFrom | OpUncheckedAlignUp.
-Record case19 := { c_mode : mode; c_op : aop; c_a : N; c_b : N }.
+  | OpUncheckedAdd | OpUncheckedSub | OpUncheckedOffsetFrom | OpUncheckedAlignUp
+  (* the rest of the comparison surface: partial_cmp, the four operators, !=, max, min, clamp(b, c),
+     equality with the operands exchanged *)
+  | OpPartialCmp | OpLt | OpLe | OpGt | OpGe | OpNe | OpMax | OpMin | OpClamp | OpEqSym.
+(* c_c: third operand, used by clamp only (upper bound; c_b is the lower bound) *)
+Record case19 := { c_mode : mode; c_op : aop; c_a : N; c_b : N; c_c : N }.
 Record obs19 := { o_kind : N; o_val : N; o_flag : bool }.
 
 Definition obs19_eqb (x y : obs19) : bool :=
@@ -19,6 +23,11 @@ Definition least_multiple_ge (a p : N) : N := ((a + p - 1) / p) * p.
 
 Definition some_if (c : bool) (v : N) (o : obs19) : bool :=
   if c then (o_kind o =? 1) && (o_val o =? v) else (o_kind o =? 0).
+
+(* "ordering and equality follow the raw values": the order of two wrappers is N's order of the raw values *)
+Definition ord_code (a b : N) : N := match a ?= b with Lt => 0 | Eq => 1 | Gt => 2 end.
+Definition val_is (v : N) (o : obs19) : bool := (o_kind o =? 1) && (o_val o =? v).
+Definition b2n (b : bool) : N := if b then 1 else 0.
 
 Definition ok_C19 (c : case19) (o : obs19) : bool :=
   let a := c_a c in let b := c_b c in
@@ -36,6 +45,17 @@ Definition ok_C19 (c : case19) (o : obs19) : bool :=
   | OpBitOr => (o_kind o =? 1) && (o_val o =? N.lor a b)
   | OpCmp => (o_kind o =? 1) && (o_val o =? (match a ?= b with Lt => 0 | Eq => 1 | Gt => 2 end))
   | OpEq => (o_kind o =? 1) && (o_val o =? (if N.eq_dec a b then 1 else 0))
+  | OpPartialCmp => val_is (ord_code a b) o        (* Some(ordering of the raw values); None is kind 0 *)
+  | OpLt => val_is (b2n (match a ?= b with Lt => true | _ => false end)) o
+  | OpLe => val_is (b2n (match a ?= b with Gt => false | _ => true end)) o
+  | OpGt => val_is (b2n (match a ?= b with Gt => true | _ => false end)) o
+  | OpGe => val_is (b2n (match a ?= b with Lt => false | _ => true end)) o
+  | OpNe => val_is (if N.eq_dec a b then 0 else 1) o
+  | OpEqSym => val_is (if N.eq_dec a b then 1 else 0) o
+  | OpMax => val_is (N.max a b) o                  (* the greater / the smaller raw value *)
+  | OpMin => val_is (N.min a b) o
+  | OpClamp =>                                     (* b <= c: the value of [b, c] nearest to a; b > c: documented panic, outside the property *)
+      if b <=? c_c c then val_is (N.max b (N.min a (c_c c))) o else true
   | OpUncheckedAdd | OpUncheckedSub | OpUncheckedOffsetFrom | OpUncheckedAlignUp =>
       (* the property does not constrain the unchecked forms; if they return, the value must
          be the exact or the wrapped one (never a third thing) *)
